@@ -432,6 +432,9 @@ class _Renamer(ast.NodeTransformer):
     def visit_Constant(self, n):
         if isinstance(n.value, int) and not isinstance(n.value, bool) and n.value in self.m:
             return ast.copy_location(ast.Constant(value=self.m[n.value]), n)
+        if isinstance(n.value, str) and n.value in self.am:
+            # a method named by a string (getattr / a dispatching helper) carries the direction as well
+            return ast.copy_location(ast.Constant(value=self.am[n.value]), n)
         return n
 
     def visit_UnaryOp(self, n):
@@ -478,6 +481,72 @@ def mirror_equal(a, b, attr_map, const_map=None):
     return ast.dump(a2, include_attributes=False) == ast.dump(b2, include_attributes=False), unparse(a2), unparse(b2)
 
 
+def mirror_exec(repo, rel, cn, a, b, amap, cmap):
+    """both siblings executed on an object of the class whose collaborators are opaque: -> (same?, what a does, what b
+    does) with a's effects renamed by the direction map; None when either execution cannot be followed"""
+    from ..absint import Interp, Obj, _Raise, NeedAtom, Budget, DomainGrew, enumerate_cells, flat_effects, show
+    cls = repo.cls(rel, cn)
+    cmap = cmap or {}
+
+    def rename(text, mapping):
+        out = text
+        for k in sorted(mapping, key=len, reverse=True):
+            out = out.replace(k, "\0" + mapping[k] + "\0")
+        return out.replace("\0", "")
+
+    def run_one(name, mapping, cm):
+        def run(cell, domains):
+            it = Interp(repo, cell, domains)
+            o = Obj(cls)
+            # collaborators: every attribute the class's methods read from self is an opaque object named after it; a list
+            # attribute iterated over is a list of two opaque members
+            for k in repo.mro(cls):
+                for fn in k.methods.values():
+                    for n in ast.walk(fn):
+                        if is_self_attr(n) and isinstance(n.ctx, ast.Load):
+                            nm = repo.mangle(k.name, n.attr) if n.attr.startswith("__") and not n.attr.endswith("__") else n.attr
+                            if nm not in o.fields and repo.find_method(cls, n.attr)[1] is None:
+                                o.fields[nm] = ("ext", n.attr, [])
+                    for n in ast.walk(fn):
+                        if isinstance(n, ast.For) and is_self_attr(n.iter):
+                            o.fields[n.iter.attr] = ("list", [("ext", n.iter.attr + "0", []), ("ext", n.iter.attr + "1", [])])
+            fn = repo.method(rel, cn, name)
+            args = [("ext", "ARG%d" % i, []) for i in range(len(params_of(fn)))]
+            it.effects[:] = []
+            raised = None
+            try:
+                ret = it.method_call(("obj", o), name, args, {}, {"@module": cls.module, "@owner": cls}, 0, None)
+            except _Raise as r:
+                ret, raised = None, r.text
+            effs = []
+            for e in flat_effects(it.effects):
+                if e[0] == "CALL":
+                    effs.append("%s(%s)" % (e[1], ", ".join(show(x) for x in (e[2] if len(e) > 2 and isinstance(e[2], list) else []))))
+                else:
+                    effs.append("%s %s" % (e[0], " ".join(show(x) if isinstance(x, tuple) else str(x) for x in e[1:])))
+            rv = show(ret) if ret is not None else None
+            if ret is not None and ret[0] == "c" and ret[1] in cm:
+                rv = show(("c", cm[ret[1]]))
+            return (tuple(effs), rv, raised), it
+        out = {}
+        for cell, res in enumerate_cells(run, {}, max_cells=64):
+            key = tuple(sorted((rename(str(k), mapping), str(v)) for k, v in cell.items()))
+            out[key] = tuple(rename(str(x), mapping) if x is not None else None for x in (" ; ".join(res[0]), res[1], res[2]))
+        return out
+    try:
+        ea = run_one(a, amap, cmap)
+        eb = run_one(b, {}, {})
+    except (NeedAtom, Budget, DomainGrew, LookupError, KeyError, TypeError, AttributeError):
+        return None
+    if not ea or not eb:
+        return None
+    if ea == eb:
+        return True, "", ""
+    diff = [k for k in sorted(set(ea) | set(eb)) if ea.get(k) != eb.get(k)]
+    k = diff[0]
+    return False, "%s%s" % (ea.get(k), " when %s" % (k,) if k else ""), "%s" % (eb.get(k),)
+
+
 def rule_mirror(ctx):
     repo = ctx.repo
     pairs = [
@@ -489,6 +558,16 @@ def rule_mirror(ctx):
     for rel, cn, a, b, amap, cmap in pairs:
         fa, fb = repo.method(rel, cn, a), repo.method(rel, cn, b)
         ok, ta, tb = mirror_equal(fa, fb, amap, cmap)
+        if not ok:
+            # the two siblings are written differently (a shared helper, a table): decided by what they do - both are
+            # executed on the same object with opaque neighbours and their effects compared modulo the direction
+            sem = mirror_exec(repo, rel, cn, a, b, amap, cmap)
+            if sem is not None:
+                same, da, db = sem
+                ctx.check("C18.mirror", same, where(rel, "%s.%s" % (cn, b), fb.lineno), "%s.%s ~ %s" % (cn, a, b),
+                          "%s is not the mirror image of %s (upper<->lower): executed on the same object, mirrored %s does %s but %s does %s" % (b, a, a, da, b, db),
+                          "same effects modulo upper<->lower (by execution)")
+                continue
         ctx.check("C18.mirror", ok, where(rel, "%s.%s" % (cn, b), fb.lineno), "%s.%s ~ %s" % (cn, a, b),
                   "%s is not the mirror image of %s (upper<->lower): mirrored %s reads `%s` but %s reads `%s`" % (b, a, a, " ".join(ta.split())[:200], b, " ".join(tb.split())[:200]),
                   "mirror images modulo upper<->lower")
@@ -536,18 +615,24 @@ def rule_iface(ctx):
             if "interface" in y[1].fields:
                 y[1].fields["interface"] = ("ext", "IF:" + y[1].cls.name, [])
                 want[y[1].cls.name] = y[1].fields["interface"]
-        bad = []
+        bad, unfollowed = [], []
         askers = [("stack", ("obj", o))] + [("layer " + layers[-1][1].cls.name, layers[-1])] if layers else []
         for who, recv in askers:
             for c in members + [K[6]]:
                 try:
                     r = it.method_call(recv, "getLayerInterface", [("cls", c)], {}, {"@module": st.module, "@owner": None}, 0, None)
-                except (_Raise, NeedAtom, Budget) as x:
-                    bad.append("%s.getLayerInterface(%s) cannot be followed / raises (%s)" % (who, c.name, str(getattr(x, "text", x))[:40]))
+                except _Raise as x:
+                    bad.append("%s.getLayerInterface(%s) raises (%s)" % (who, c.name, str(getattr(x, "text", x))[:40]))
+                    continue
+                except (NeedAtom, Budget) as x:
+                    unfollowed.append("%s.getLayerInterface(%s): %s" % (who, c.name, str(x)[:40]))
                     continue
                 exp = want.get(c.name, C_NONE)
                 if r != exp:
                     bad.append("%s.getLayerInterface(%s) gives %s, not %s" % (who, c.name, "None" if r == C_NONE else (r[1] if r[0] == "ext" else r[0]), "its interface" if exp != C_NONE else "None"))
+        if unfollowed and not bad:
+            ctx.undecided("C18.par", w, "interfaces found by class in the stack %s" % label, "the lookup could not be followed: " + "; ".join(unfollowed[:2]))
+            continue
         ctx.check("C18.par", not bad and len(want) == len(members), w, "interfaces found by class in the stack %s" % label,
                   "; ".join(bad[:3]) + (" (+%d more)" % (len(bad) - 3) if len(bad) > 3 else ""), "every layer's interface found from the stack and from a layer, absent class -> None (%d lookups)" % (len(askers) * (len(members) + 1)))
 
@@ -703,6 +788,53 @@ def rule_stop(ctx):
 
 
 def rule_par(ctx):
+    """the group's constructor and setStack by abstract execution on three stub member classes: members instantiated in
+    the given order, each member's four ways out (toLower, toUpper, broadcastEvent, emitEvent) bound to the group's own
+    toLower / toUpper / subBroadcastEvent / subEmitEvent, and the stack handed to every member.  Interface lookup is
+    decided by rule_iface.  The reading of the constructor's shape (rule_par_structural) is the fallback."""
+    from ..absint import Interp, _Raise, NeedAtom, Budget, DomainGrew
+    repo = ctx.repo
+    init = repo.method(LAYERS, "YowParallelLayer", "__init__")
+    w = where(LAYERS, "YowParallelLayer.__init__", init.lineno)
+    par = repo.cls(LAYERS, "YowParallelLayer")
+    K = [_stub_layer(repo, "Stub" + n) for n in "ABC"]
+    try:
+        it = Interp(repo, {}, {})
+        g = it.construct(par, [("list", [("cls", k) for k in K], False, "tuple")], {}, {"@module": par.module, "@owner": None}, 0, None)
+        subs = g[1].fields.get("sublayers")
+        members = it.iterate(it.force(subs)) if subs is not None else None
+    except (_Raise, NeedAtom, Budget, DomainGrew):
+        members = None
+    if members is None or not all(m[0] == "obj" and m[1].cls is not None for m in members):
+        return rule_par_structural(ctx)
+    ctx.check("C18.par", [m[1].cls for m in members] == K, w, "sublayers instantiated in order",
+              "sublayer classes must be instantiated in the given order (got %s)" % [m[1].cls.name for m in members], "instantiated in order")
+    want = {"toLower": "toLower", "toUpper": "toUpper", "broadcastEvent": "subBroadcastEvent", "emitEvent": "subEmitEvent"}
+    for k, v in want.items():
+        got = []
+        for m in members:
+            f = m[1].fields.get(k)
+            ok = f is not None and f[0] == "bound" and f[1][0] == "obj" and f[1][1] is g[1] and f[2] == v
+            got.append(ok)
+        ctx.check("C18.par", all(got) and len(got) == 3, w, "member.%s -> group.%s" % (k, v),
+                  "every sublayer's %s must be replaced by the group's %s (member(s) %s keep their own or get something else)" % (k, v, [K[i].name for i, x in enumerate(got) if not x]), "substituted on all three members")
+    ss = repo.method(LAYERS, "YowParallelLayer", "setStack")
+    STACK = ("ext", "STACK", [])
+    try:
+        it.method_call(g, "setStack", [STACK], {}, {"@module": par.module, "@owner": par}, 0, None)
+        seen = []
+        for m in [g] + list(members):
+            seen.append(it.method_call(m, "getStack", [], {}, {"@module": par.module, "@owner": par}, 0, None) == STACK)
+    except (_Raise, NeedAtom, Budget, DomainGrew):
+        seen = None
+    if seen is None:
+        ctx.undecided("C18.par", where(LAYERS, "YowParallelLayer.setStack", ss.lineno), "setStack reaches sublayers", "setStack / getStack could not be executed")
+    else:
+        ctx.check("C18.par", all(seen), where(LAYERS, "YowParallelLayer.setStack", ss.lineno), "setStack reaches sublayers",
+                  "sublayers must receive the stack (props, interfaces): getStack() afterwards gives the stack for %s of group + 3 members" % seen.count(True), "group and all three members answer getStack() with the stack")
+
+
+def rule_par_structural(ctx):
     repo = ctx.repo
     init = repo.method(LAYERS, "YowParallelLayer", "__init__")
     w = where(LAYERS, "YowParallelLayer.__init__", init.lineno)
@@ -736,7 +868,7 @@ def run(ctx):
     ctx.rule("C18.wire", "wiring order and entry points", floor=9)
     ctx.rule("C18.mirror", "emit/broadcast siblings mirror each other", floor=4)
     ctx.rule("C18.stop", "stop-on-true, detached deferral, loop", floor=10)
-    ctx.rule("C18.par", "group method substitution and interface lookup", floor=8)
+    ctx.rule("C18.par", "group method substitution and interface lookup", floor=6)
     ctx.rule("C18.prim", "getProp / setProp / execDetached semantics by abstract execution", floor=4)
     ctx.rule("C18.state", "event-callback tables (every attribute a layer mutates in place) are bound per instance to a fresh object", floor=1)
     ctx.guarded("C18.bind", rule_bind, ctx)
